@@ -70,6 +70,45 @@ func xsdDuration(ns int64) string {
 	return out
 }
 
+// jLeaf: a scalar of the document that the deep model carries as a token (number, boolean, instant,
+// duration): marshals as its text, and is sent to the model as the token.
+type jLeaf struct {
+	tok  T
+	text interface{}
+}
+
+func (l jLeaf) MarshalJSON() ([]byte, error) { return json.Marshal(l.text) }
+
+// toJ: the document as the JSON tree the deep model reads (members in encoding/json's order: sorted)
+func toJ(x interface{}) interface{} {
+	switch v := x.(type) {
+	case nil:
+		return T{"null": true}
+	case string:
+		return T{"str": v}
+	case jLeaf:
+		return T{"leaf": v.tok}
+	case []interface{}:
+		out := []interface{}{}
+		for _, e := range v {
+			out = append(out, toJ(e))
+		}
+		return T{"arr": out}
+	case map[string]interface{}:
+		keys := make([]string, 0, len(v))
+		for k := range v {
+			keys = append(keys, k)
+		}
+		sort.Strings(keys)
+		out := []interface{}{}
+		for _, k := range keys {
+			out = append(out, []interface{}{k, toJ(v[k])})
+		}
+		return T{"obj": out}
+	}
+	return T{"null": true}
+}
+
 type presenter struct {
 	r     *RNG
 	stats map[string]int
@@ -152,24 +191,24 @@ func (p *presenter) field(doc map[string]interface{}, term string, kind string, 
 	case "time":
 		t := asList(m["time"])
 		tm := time.Unix(int64(num(t[0])), int64(num(t[1]))).In(time.FixedZone("", int(num(t[2]))))
-		doc[term] = tm.Format(time.RFC3339Nano)
+		doc[term] = jLeaf{T{"time": []interface{}{int64(num(t[0])), 0, 0}}, tm.Format(time.RFC3339Nano)}
 		if num(t[2]) != 0 {
 			p.count("time/zoned")
 		} else {
 			p.count("time/utc")
 		}
 	case "duration":
-		doc[term] = xsdDuration(int64(num(m["dur"])))
+		doc[term] = jLeaf{T{"dur": int64(num(m["dur"]))}, xsdDuration(int64(num(m["dur"])))}
 	case "string":
 		doc[term] = m["s"]
 	case "float":
-		doc[term] = json.Number(fmt.Sprintf("%.6f", num(m["dec6"])/1e6))
+		doc[term] = jLeaf{T{"dec6": int64(num(m["dec6"]))}, json.Number(fmt.Sprintf("%.6f", num(m["dec6"])/1e6))}
 	case "int":
-		doc[term] = json.Number(fmt.Sprintf("%d", int64(num(m["int"]))))
+		doc[term] = jLeaf{T{"int": int64(num(m["int"]))}, json.Number(fmt.Sprintf("%d", int64(num(m["int"]))))}
 	case "uint":
-		doc[term] = json.Number(fmt.Sprintf("%d", int64(num(m["uint"]))))
+		doc[term] = jLeaf{T{"uint": int64(num(m["uint"]))}, json.Number(fmt.Sprintf("%d", int64(num(m["uint"]))))}
 	case "bool":
-		doc[term] = m["bool"]
+		doc[term] = jLeaf{T{"bool": m["bool"]}, m["bool"]}
 	case "source", "pubkey", "endpoints":
 		sub := map[string]interface{}{}
 		rec := m["rec"].(T)
@@ -197,6 +236,12 @@ func (p *presenter) object(m T) map[string]interface{} {
 }
 
 func c05Present(r *RNG, tr T, stats map[string]int) []byte {
+	b, _ := c05PresentJ(r, tr, stats)
+	return b
+}
+
+// c05PresentJ: the document as bytes and as the JSON tree for the deep model
+func c05PresentJ(r *RNG, tr T, stats map[string]int) ([]byte, interface{}) {
 	p := &presenter{r: r, stats: stats}
 	doc := p.object(tr)
 	if r.Chance(50) {
@@ -206,7 +251,7 @@ func c05Present(r *RNG, tr T, stats map[string]int) []byte {
 	if err != nil {
 		panic(err)
 	}
-	return b
+	return b, toJ(doc)
 }
 
 // c05Fixpoint: decode(doc) = v1; b1 = encode(v1); v2 = decode(b1); b2 = encode(v2):  v2 == normal form of v1, b2 == b1.
@@ -373,8 +418,16 @@ func init() {
 		stats := map[string]int{}
 		emit := func(c *Ctx, tr interface{}, tag string) {
 			m := sortNLVs(tr).(T) // a language map is unordered; encoding/json writes it sorted by tag
-			doc := c05Present(c.R, m, stats)
+			doc, jt := c05PresentJ(c.R, m, stats)
 			c05Case(c, m, doc, tag)
+			// the same document through the deep model's reader
+			if v1, err := ap.UnmarshalJSON(doc); err == nil {
+				var shown interface{}
+				if d := dumpItem(v1); d != nil {
+					shown = dropEmpties(d)
+				}
+				c.Emit(map[string]interface{}{"op": "deepRead", "j": jt}, shown, false)
+			}
 		}
 		c01Cover(c, emit)
 		cfg := c01Cfg(c.N(2, 3))
